@@ -476,6 +476,23 @@ int main(int argc, char** argv) {
                 Susceptibility X2(*s.S, *s.H, A, B, *s.DM); X2.prepare(); X2.compute(); X2.subtractDisconnected(EA.getResult(), EB.getResult());
                 Susceptibility X3(*s.S, *s.H, A, B, *s.DM); X3.prepare(); X3.compute();
                 { EnsembleAverage E1(*s.S, *s.H, A, *s.DM), E2(*s.S, *s.H, B, *s.DM); X3.subtractDisconnected(E1, E2); }
+                {   // averages handed over as objects that the caller has already prepared (and used); prepare() is idempotent
+                    ComplexType ra = EA.getResult(), rb = EB.getResult();
+                    Susceptibility X6(*s.S, *s.H, A, B, *s.DM); X6.prepare(); X6.compute(); X6.subtractDisconnected(EA, EB);
+                    bool okavg = EA.getResult() == ra && EB.getResult() == rb;
+                    EA.prepare(); EB.prepare();
+                    okavg = okavg && EA.getResult() == ra && EB.getResult() == rb;
+                    out << "o idem avg " << a << " " << b << " " << c << " " << d << " " << int(okavg) << "\n";
+                    bool ok = true;
+                    for (size_t k = 0; k < ns.size(); ++k) ok = ok && X6(ns[k]) == X2(ns[k]);
+                    if (a == c && b == d) {   // the same object for both arguments
+                        Susceptibility X7(*s.S, *s.H, A, B, *s.DM); X7.prepare(); X7.compute();
+                        EnsembleAverage E(*s.S, *s.H, A, *s.DM);
+                        X7.subtractDisconnected(E, E);
+                        for (size_t k = 0; k < ns.size(); ++k) ok = ok && X7(ns[k]) == X2(ns[k]);
+                    }
+                    out << "o idem suscprepared " << a << " " << b << " " << c << " " << d << " " << int(ok) << "\n";
+                }
                 out << "o suscvanish " << a << " " << b << " " << c << " " << d << " " << int(X0.isVanishing()) << "\n";
                 for (size_t k = 0; k < ns.size(); ++k)
                     out << "o susc " << a << " " << b << " " << c << " " << d << " " << ns[k] << " " << cplxStr(X0(ns[k])) << " " << cplxStr(X1(ns[k]))
